@@ -154,6 +154,8 @@ def _dtok(d):
             return int(v)
         if isinstance(v, (float, np.floating)) and float(v).is_integer():
             return int(v)
+        if isinstance(v, (complex, np.complexfloating)) and float(v.real).is_integer():
+            return int(v.real)
         return 0
     except Exception:
         return 0
